@@ -89,7 +89,7 @@ class WithThreadingLock(SimpleCodemod, NameResolutionMixin):
                 ]
             )
 
-        return original_node
+        return updated_node
 
 
 def _get_node_name(original_node: cst.With):
